@@ -1,5 +1,9 @@
 // C09 harness: builds two MockNamedValue objects from a scenario line, prints equals both ways and every integer getter
 // on the first value ("~" = the getter failed the test).  Runs inside a fixture test so failing getters are contained.
+// Placement of pointer-like payloads: "<value> <value>" gives every string / memory buffer an allocation of its own;
+// ":am <arena> oa la ob lb" and ":as <arena> oa ob" put BOTH payloads into ONE exactly-sized heap block (so that ASan sees
+// any read past it): memory buffers [arena+oa, +la) and [arena+ob, +lb); C strings starting at arena+oa and arena+ob, the
+// arena being followed by a single NUL.
 #include "CppUTest/TestHarness.h"
 #include "CppUTest/TestTestingFixture.h"
 #include "CppUTestExt/MockNamedValue.h"
@@ -31,6 +35,28 @@ static void build(Toks& t, MockNamedValue& v)
     else { fprintf(stderr, "bad tag %s\n", tag.c_str()); exit(3); }
 }
 
+static unsigned char* arena = 0;
+static bool buildAliased(Toks& t, MockNamedValue& a, MockNamedValue& b)
+{
+    if (t.end() || (t.t[t.i] != ":am" && t.t[t.i] != ":as")) return false;
+    bool mem = t.next() == ":am";
+    std::string ar; t.bytes(ar);
+    size_t n = ar.size() + (mem ? 0 : 1);
+    arena = (unsigned char*)malloc(n ? n : 1);
+    if (ar.size()) memcpy(arena, ar.data(), ar.size());
+    if (!mem) arena[ar.size()] = 0;
+    if (mem) {
+        size_t oa = t.u(), la = t.u(), ob = t.u(), lb = t.u();
+        if (oa + la > ar.size() || ob + lb > ar.size()) { fprintf(stderr, "window outside the arena\n"); exit(3); }
+        a.setMemoryBuffer(arena + oa, la); b.setMemoryBuffer(arena + ob, lb);
+    } else {
+        size_t oa = t.u(), ob = t.u();
+        if (oa > ar.size() || ob > ar.size()) { fprintf(stderr, "pointer outside the arena\n"); exit(3); }
+        a.setValue((const char*)arena + oa); b.setValue((const char*)arena + ob);
+    }
+    return true;
+}
+
 static MockNamedValue* gA; static int gWhich; static std::string gRes;
 static void getterBody()
 {
@@ -50,7 +76,7 @@ int main()
     while (readline(t)) {
         keep.clear(); keep.reserve(4);
         MockNamedValue a("a"), b("b");
-        build(t, a); build(t, b);
+        if (!buildAliased(t, a, b)) { build(t, a); build(t, b); }
         o << (a.equals(b) ? "1" : "0") << (b.equals(a) ? "1" : "0");
         for (int g = 0; g < 6; g++) {
             TestTestingFixture fx;
@@ -60,6 +86,7 @@ int main()
             o << (fx.getFailureCount() ? std::string("~") : gRes);
         }
         o.flush();
+        free(arena); arena = 0;
     }
     return 0;
 }
